@@ -19,6 +19,7 @@ import (
 	"github.com/piotrnar/gocoin/client/common"
 	"github.com/piotrnar/gocoin/client/wallet"
 	"github.com/piotrnar/gocoin/lib/btc"
+	"github.com/piotrnar/gocoin/lib/chain"
 	"github.com/piotrnar/gocoin/lib/utxo"
 
 	"verif/harness/hx"
@@ -63,6 +64,8 @@ type Cfg struct {
 	Testnet4       bool            `json:"testnet4"` // test-net-4-like genesis: all rules active from height 1 inside NewChainExt
 	Long           bool            `json:"long,omitempty"` // 4026-block prefix: the history crosses the retarget boundary at height 4032
 	RealAlloc      bool            `json:"real_alloc,omitempty"` // UTXO records in lib/others/memory instead of the Go heap
+	TrustChecker   bool            `json:"trust_checker,omitempty"` // chain.TrustedTxChecker installed: about half of the (really) valid transactions count as verified by the pool
+	Young          int             `json:"young,omitempty"`      // >0: a chain of only this many blocks (fewer than 11 ancestors for the median time, nothing mature)
 	Blocks         []*ledger.Block `json:"blocks"`
 	Now0           int64           `json:"now0"`
 	CompressUTXO   bool            `json:"compress_utxo"`
@@ -112,10 +115,20 @@ func (c *Cfg) plen() int {
 	if c.Long {
 		return longPrefixLen
 	}
+	if c.Young > 0 {
+		return c.Young
+	}
 	return prefixLen
 }
 
 func (c *Cfg) net() int {
+	if c.Young > 0 {
+		n := 100 + c.Young
+		if c.Testnet {
+			n += 50
+		}
+		return n
+	}
 	if c.Long {
 		if c.Testnet {
 			return 4
@@ -184,7 +197,7 @@ func prefix(cfg *Cfg) []*ledger.Block {
 		prefixCache[net] = res
 		return res
 	}
-	for i := 0; i < prefixLen; i++ {
+	for i := 0; i < cfg.plen(); i++ {
 		b, _ := m.Build(cur, ledger.BlockOpts{NTx: 0})
 		n := l.Add(b, 1<<40)
 		if n == nil || !n.Valid() {
@@ -227,7 +240,9 @@ func (H) Gen(prop string, seed uint64, tier string) *hx.Case {
 		SaveTargetMs: []int{0, 50, 5000}[r.Intn(3)], SkipSave: uint32(r.Intn(4)), ClientRecovery: r.Chance(0.5),
 		MaxConsec: []int{50, 500, 5000}[r.Intn(3)], SchedSeed: r.U64()}
 	cfg.P = baseParams(cfg.Testnet)
-	if (prop == "C05" || prop == "C06") && r.Chance(0.25) {
+	if prop == "C05" && r.Chance(0.1) {
+		cfg.Young = r.Range(1, 9) // a chain younger than eleven blocks (every rule active from height 1)
+	} else if (prop == "C05" || prop == "C06") && r.Chance(0.25) {
 		cfg.Long = true // across the retarget boundary at height 4032 (every rule active from height 1)
 	} else if cfg.Testnet && r.Chance(0.6) {
 		cfg.Testnet4 = true // keeps every rule active from height 1
@@ -250,6 +265,9 @@ func (H) Gen(prop string, seed uint64, tier string) *hx.Case {
 	}
 	if r.Chance(0.3) {
 		cfg.ChildFirstP = []float64{0.1, 0.3, 0.6, 1}[r.Intn(4)]
+	}
+	if (prop == "C04" || prop == "C02" || prop == "C06" || prop == "C11") && r.Chance(0.3) {
+		cfg.TrustChecker = true
 	}
 	if prop == "C17" {
 		cfg.WalletMinVal = []uint64{0, 1000, 500000000, 1500000000, 2500000000}[r.Intn(5)]
@@ -314,7 +332,7 @@ func (H) Gen(prop string, seed uint64, tier string) *hx.Case {
 		violP, c05 = 0.4, ledger.C05Violations
 		viols = []string{"bad-sig", "overspend"}
 	case "C06", "C07", "C11", "C17", "C20":
-		violP, viols = 0.12, []string{"bad-sig", "spent-input", "immature", "overspend", "double-in-block"}
+		violP, viols = 0.12, []string{"bad-sig", "spent-input", "immature", "overspend", "double-in-block", "later-output", "missing-input", "own-coinbase", "bad-sig", "spent-input"}
 	}
 	best := tip
 	var retry []int
@@ -890,6 +908,32 @@ func (r *run) deliver(bi int, when string) {
 		}
 		r.status[hh] = 1
 		r.out.Probe("accepted", 1)
+		if ln.Valid() {
+			for _, t := range blk.Txs[1:] {
+				for _, in := range t.In {
+					w := in.Wit
+					annex := len(w) >= 2 && len(w[len(w)-1]) > 0 && w[len(w)-1][0] == 0x50
+					if annex {
+						w = w[:len(w)-1]
+					}
+					kind := "legacy_or_p2sh"
+					switch {
+					case len(w) == 1 && (len(w[0]) == 64 || len(w[0]) == 65):
+						kind = "taproot_key_path"
+					case len(w) >= 3 && len(w[len(w)-1]) >= 33 && (len(w[len(w)-1])-33)%32 == 0 && w[len(w)-1][0]&0xfe == 0xc0:
+						kind = fmt.Sprintf("taproot_script_path_depth%d", (len(w[len(w)-1])-33)/32)
+					case len(w) == 2 && len(w[1]) == 33:
+						kind = "segwit_v0_keyhash"
+					case len(w) > 0:
+						kind = "segwit_v0_script"
+					}
+					if annex {
+						kind += "+annex"
+					}
+					r.out.Probe("connected_input:"+kind, 1)
+				}
+			}
+		}
 		if ln.Height%2016 == 0 && ln.Parent != nil {
 			if first := ln.Parent.Ancestor(ln.Parent.Height - 2015); first != nil {
 				const twoWeeks = 14 * 24 * 3600
@@ -1247,6 +1291,29 @@ func (r *run) boot() {
 	utxo.UTXO_SKIP_SAVE_BLOCKS = cfg.SkipSave
 	r.n = Boot(r.dir, NodeOpts{P: cfg.P, Genesis: cfg.genesis(), CompressBlocks: cfg.CompressBlocks, CacheBlocks: cfg.CacheBlocks,
 		MaxFileSize: uint64(cfg.MaxFileKB) << 10, ClientRecovery: cfg.ClientRecovery, LibraryTail: cfg.Testnet4, RealAlloc: cfg.RealAlloc})
+	if cfg.TrustChecker {
+		// as client/txpool does for transactions it has verified itself (same wtxid): script checks are skipped
+		// for THESE transactions only
+		verified := map[[32]byte]bool{}
+		for _, b := range cfg.Blocks {
+			for _, t := range b.Txs[1:] {
+				ok := true
+				for i := range t.In {
+					ok = ok && t.InputValid(i)
+				}
+				if w := t.WID(); ok && w[0]&1 == 0 {
+					verified[w] = true
+				}
+			}
+		}
+		chain.TrustedTxChecker = func(tx *btc.Tx) bool {
+			hit := verified[tx.WTxID().Hash]
+			if hit {
+				r.hookNote("", "transaction_trusted_as_pool_verified")
+			}
+			return hit
+		}
+	}
 	if cfg.RealAlloc {
 		simrt.Quiet(func() {
 			if k := r.n.Ballast(hx.NewRng(cfg.SchedSeed^0xBA11A57), r.prop == "C20"); k > 0 {
